@@ -229,6 +229,11 @@ func checkC24(r *Run) {
 		req("an existing record must be pending", "when: "+conn+" != nil => "+conn+`.ConnectionDetails.State == "pending"`))
 	r.RequireAtStore("C24-R2", "daemon.Connections.connected", "$0.ipCounts[*] := *", 1, req("per-IP count incremented only for a new record", conn+" == nil"))
 	r.RequireStore("C24-R2", "daemon.Connections.connected", "gnet id indexed to the address", "$0.gnetIDs[$2] := $1")
+	// a removal names the connection it means: the record is dropped only when its connection id is the caller's
+	// (0 for a connection that never got one), whatever the event that triggers it
+	r.RequireOnSuccess("C24-R2", "daemon.Connections.remove",
+		req("the address parses", "ok(util/iputil.SplitAddr($1))"),
+		req("the record's connection id equals the caller's", conn+".gnetID == $2"))
 
 	// R3 locks
 	res := r.P.lockDiscipline("daemon", "Connections", maps, "sync.Mutex.Lock", "sync.Mutex.Unlock")
